@@ -281,7 +281,7 @@ def _impl(stream, line):
     if stream in ("ff", "ffx"):
         data = C.unhx(w[1])
         if stream == "ffx":
-            data = xorencode(data, C.unhx(w[4]))
+            data = (C.unhx(w[5]) if len(w) > 5 else b"") + xorencode(data, C.unhx(w[4]))
         elif len(w) > 4:
             try:
                 with _BufSize(int(w[2])):
@@ -823,6 +823,13 @@ def _gen_model(tier, rng, shard, nshards):
         if clean(payload):
             tag = "M" if bad else f"R:{key.hex()}:{len(pre)}"
             yield "ffx", f"ffx {C.hx(payload)} 8192 {tag} {C.hx(C.rbytes(rng, 4))}"
+            # the same container behind a shellcode stub: every stub of 0..1023 bytes is within XorEncodedFile.from_file's default range
+            # (NOP filler, so that no other offset satisfies the size relation; with and without the ff ff ff end marker)
+            for sl in ([1, 300, 511, 512, 513, 1000, 1023] if xi == 0 or thorough else [rng.choice([512, 700, 1023])]):
+                stub = b"\x90" * sl
+                if rng.random() < 0.5 and sl >= 3:
+                    stub = stub[:-3] + b"\xff\xff\xff"
+                yield "ffx", f"ffx {C.hx(payload)} 8192 {tag} {C.hx(C.rbytes(rng, 4))} {C.hx(stub)}"
 
     # ---- ff / wb: protected areas whose marker window, beacon area or guard area straddles block boundaries
     # (a chunked re-implementation of the scan must overlap its chunks by ≥ 11 bytes and re-seek for the two big reads).
